@@ -192,6 +192,81 @@ def _rewrite_stmt(fn, s: ast.stmt) -> List[ast.stmt]:
             loop = ast.copy_location(ast.For(target=s.target.elts[1], iter=s.iter.args[0], body=[inc] + list(s.body),
                                              orelse=s.orelse, type_comment=None), s)
             return [init, loop]
+    # for v in [a, b]: BODY   ->   v = a; BODY; v = b; BODY   (short displays; BODY without break / continue of its own level)
+    if isinstance(s, ast.For) and isinstance(s.iter, (ast.List, ast.Tuple)) and 1 <= len(s.iter.elts) <= 4 and not s.orelse and \
+            isinstance(s.target, ast.Name) and not any(isinstance(e, ast.Starred) for e in s.iter.elts) and \
+            not _own_level_jump(s.body) and (len(s.iter.elts) == 1 or sum(1 for b in s.body for _ in ast.walk(b)) <= 60):
+        elts = list(s.iter.elts)
+        stored = {n.id for b in s.body for n in ast.walk(b) if isinstance(n, ast.Name) and isinstance(n.ctx, ast.Store)}
+        later = set()
+        for e in elts[1:]:
+            later |= _names(e)
+        # the display is evaluated before the first iteration: later elements must not read what BODY re-binds, and must not
+        # be calls whose evaluation would move behind the earlier iterations
+        if not (later & (stored | {s.target.id})) and not any(_has_call(e) for e in elts[1:]):
+            out = []
+            for i, e in enumerate(elts):
+                out.append(ast.copy_location(ast.Assign(targets=[ast.Name(id=s.target.id, ctx=ast.Store())], value=e), s))
+                body = s.body if i == 0 else copy.deepcopy(s.body)
+                out.extend(body)
+            for x in out:
+                ast.fix_missing_locations(x)
+            return out
+    # for T in [E for V in X if C]: BODY   ->   for V' in X: if C: T = E; BODY   (filter / projection loops)
+    if isinstance(s, ast.For) and isinstance(s.iter, (ast.ListComp, ast.GeneratorExp)) and len(s.iter.generators) == 1 and \
+            not s.iter.generators[0].is_async and isinstance(s.iter.generators[0].target, ast.Name):
+        g = s.iter.generators[0]
+        v = g.target.id
+        lazy = isinstance(s.iter, ast.GeneratorExp)
+
+        def _quiet(e):
+            """reads only: names, attributes, subscripts, comparisons, boolean operators and type predicates"""
+            for n in ast.walk(e):
+                if isinstance(n, ast.Call):
+                    if not (isinstance(n.func, ast.Name) and n.func.id in ("isinstance", "hasattr", "callable", "len", "type")):
+                        return False
+                elif isinstance(n, (ast.ListComp, ast.SetComp, ast.DictComp, ast.GeneratorExp, ast.Lambda, ast.NamedExpr,
+                                    ast.Await, ast.Yield, ast.YieldFrom)):
+                    return False
+            return True
+        stored = {n.id for b in s.body for n in ast.walk(b) if isinstance(n, ast.Name) and isinstance(n.ctx, ast.Store)}
+        quiet = _quiet(s.iter.elt) and all(_quiet(c) for c in g.ifs)
+        # the source expression is evaluated once, before the first iteration, in both spellings
+        src_quiet = not any(isinstance(n, (ast.ListComp, ast.SetComp, ast.DictComp, ast.GeneratorExp, ast.Lambda, ast.NamedExpr,
+                                           ast.Await, ast.Yield, ast.YieldFrom)) for n in ast.walk(g.iter))
+        reads = set()
+        for c in list(g.ifs) + [s.iter.elt]:
+            reads |= _names(c)
+        # eager list: the conditions run before BODY - exact when BODY re-binds nothing they read; a generator expression is
+        # interleaved with BODY anyway
+        if quiet and (lazy or (src_quiet and not ((reads - {v}) & stored))):
+            fn_names = {n.id for n in ast.walk(fn) if isinstance(n, ast.Name)} | {a.arg for a in ast.walk(fn)
+                                                                                   if isinstance(a, ast.arg)}
+            same = isinstance(s.iter.elt, ast.Name) and s.iter.elt.id == v and isinstance(s.target, ast.Name)
+            if same:
+                nv = s.target.id
+            else:
+                nv, k = v, 0
+                while nv in fn_names:
+                    k += 1
+                    nv = f"{v}__c{k}"
+
+            class _R(ast.NodeTransformer):
+                def visit_Name(self, node):
+                    if node.id == v:
+                        return ast.copy_location(ast.Name(id=nv, ctx=node.ctx), node)
+                    return node
+            conds = [_R().visit(copy.deepcopy(c)) for c in g.ifs]
+            body = list(s.body)
+            if not same:
+                body = [ast.copy_location(ast.Assign(targets=[s.target], value=_R().visit(copy.deepcopy(s.iter.elt))), s)] + body
+            if conds:
+                test = conds[0] if len(conds) == 1 else ast.BoolOp(op=ast.And(), values=conds)
+                body = [ast.copy_location(ast.If(test=test, body=body, orelse=[]), s)]
+            loop = ast.copy_location(ast.For(target=ast.Name(id=nv, ctx=ast.Store()), iter=g.iter, body=body,
+                                             orelse=s.orelse, type_comment=None), s)
+            ast.fix_missing_locations(loop)
+            return _rewrite_stmt(fn, loop)
     # xs = [E for v in IT if C]
     if COMPREHENSIONS_AS_LOOPS and isinstance(s, ast.Assign) and len(s.targets) == 1 and isinstance(s.targets[0], ast.Name) \
             and isinstance(s.value, ast.ListComp) and len(s.value.generators) == 1 and not s.value.generators[0].is_async:
@@ -249,8 +324,52 @@ COMPREHENSIONS_AS_LOOPS = True
 IFEXP_AS_STATEMENT = True
 
 
+def _own_level_jump(stmts) -> bool:
+    """break / continue that belongs to the enclosing loop (not to a loop nested in stmts)."""
+    for x in stmts:
+        if isinstance(x, (ast.Break, ast.Continue)):
+            return True
+        if isinstance(x, (ast.For, ast.AsyncFor, ast.While)):
+            if _own_level_jump(x.orelse):
+                return True
+            continue
+        if isinstance(x, (ast.FunctionDef, ast.AsyncFunctionDef, ast.ClassDef)):
+            continue
+        for f in ("body", "orelse", "finalbody"):
+            v = getattr(x, f, None)
+            if isinstance(v, list) and v and isinstance(v[0], ast.stmt) and _own_level_jump(v):
+                return True
+        for h in getattr(x, "handlers", []) or []:
+            if _own_level_jump(h.body):
+                return True
+    return False
+
+
+def _merge_comp_loops(fn, stmts: List[ast.stmt]) -> List[ast.stmt]:
+    """'ts = [E for v in X if C]' directly followed by 'for t in ts:' (ts used nowhere else)  ->  'for t in [E for ...]:'"""
+    out: List[ast.stmt] = []
+    i = 0
+    while i < len(stmts):
+        a = stmts[i]
+        b = stmts[i + 1] if i + 1 < len(stmts) else None
+        if isinstance(a, ast.Assign) and len(a.targets) == 1 and isinstance(a.targets[0], ast.Name) and \
+                isinstance(a.value, (ast.ListComp, ast.GeneratorExp)) and isinstance(b, ast.For) and \
+                isinstance(b.iter, ast.Name) and b.iter.id == a.targets[0].id:
+            tmp = a.targets[0].id
+            uses = sum(isinstance(n, ast.Name) and n.id == tmp for n in ast.walk(fn))
+            if uses == 2:
+                b.iter = a.value
+                out.append(b)
+                i += 2
+                continue
+        out.append(a)
+        i += 1
+    return out
+
+
 def _block(fn, stmts: List[ast.stmt]) -> List[ast.stmt]:
     out: List[ast.stmt] = []
+    stmts = _merge_comp_loops(fn, stmts)
     for s in stmts:
         if isinstance(s, (ast.FunctionDef, ast.AsyncFunctionDef)):
             normalise_function(s)
